@@ -747,8 +747,9 @@ func childMain() {
 		r.add(Event{Kind: "settle_timeout", Note: fmt.Sprintf("%d connections accepted, %d left", connCount.Load(), r.count("cb_leave"))})
 	}
 	// quiescence: callbacks that were in flight when the last connection left must have a chance to finish
+	need := 3 + (sc.WriteHoldUs+sc.ReadHoldUs+sc.JoinHoldUs)/2000 // sleeping callbacks: a longer window (seen once: a 3 ms write callback missed a 24 ms window under load)
 	stable, last := 0, int64(-1)
-	for i := 0; i < 100 && stable < 3; i++ {
+	for i := 0; i < 200 && stable < need; i++ {
 		cur := r.seq.Load()
 		if cur == last {
 			stable++
